@@ -10,7 +10,8 @@
     * `stride_disjoint`, `partitions_disjoint` — the two other index spaces the worker closures use;
     * `facts_ok`, `facts_consistent`, `facts_wellformed`, `manager_fields_locked` — the access facts of
       lib/query regenerated on this run (`Gen.parFacts`) contain no `unguarded` access and form a
-      consistent per-location policy.
+      consistent per-location policy; `copies_share_nothing`: the Copy methods that isolate per-worker
+      scopes share no map / slice / pointer with the original.
 
   What is trusted (named in the evidence): the extractor's step "syntactic class ⇒ actual access
   pattern of the running program" (cross-checked dynamically with the Go race detector by
@@ -223,6 +224,19 @@ def unlockedConflicts (ms : List MethodFact) : List (String × String × String)
     goroutines call touches, without the mutex, a field that some such method writes (since commit
     bec97d6 `HasError` and `Err` take `grTaskMutex`). -/
 theorem manager_fields_locked : unlockedConflicts Gen.managerMethodFacts = [] := by decide
+
+/-- Fields a copy is ALLOWED to share with its original: `View.FileInfo` describes the file behind a table
+    (path, format, …); it is not evaluation state and no worker writes it (trusted, named in the evidence). -/
+def allowedSharedCopies : List String := ["copyshare:view.go:View.Copy:FileInfo"]
+
+/-- **copies_share_nothing.**  Every Copy-style method of a struct type of lib/query (`FieldIndexCache.Copy`,
+    which gives each parallel worker's scope its own field-index cache; `View.Copy`) makes every
+    reference-typed field of its result anew on every path, except the allowed ones.  A copy that keeps the
+    original's map or slice hands two goroutines one unsynchronised structure; such a field is reported as
+    `copyshare:<file>:<method>:<field>`. -/
+theorem copies_share_nothing :
+    Gen.copyFacts.all (fun c => c.fresh || allowedSharedCopies.contains c.site) = true ∧
+    Gen.copyFacts.any (fun c => c.fn == "FieldIndexCache.Copy" && c.field == "m") = true := by decide
 
 /-- Why the discipline is needed (a statement about the MODEL, independent of the tree): a write
     under a lock and a read of the same location without it, from two workers, is a data race. -/
